@@ -626,6 +626,8 @@ nodesLoop:
 			terminating := true
 			var positionOfDefault *ast.Position
 			for _, cas := range node.Cases {
+				// Each case clause acts as an implicit block.
+				tc.scopes.Enter(cas)
 				switch comm := cas.Comm.(type) {
 				case nil:
 					if positionOfDefault != nil {
@@ -649,6 +651,7 @@ nodesLoop:
 					_ = tc.checkNodes([]ast.Node{comm})
 				}
 				cas.Body = tc.checkNodesInNewScope(node, cas.Body)
+				tc.scopes.Exit()
 				terminating = terminating && tc.terminating
 			}
 			tc.removeLastAncestor()
